@@ -409,19 +409,20 @@ Section WithInput.
     | _ :: tl => backtick_body (snd c) tl (snd c + 1) []
     end.
 
-  (* handleEscapeSequence + the wrapping of its error by readQuotedString: both failures become
-     InvalidSyntax located just after the backslash *)
+  (* handleEscapeSequence; readQuotedString passes its error on unchanged (repo commit a78a678): end of input after
+     the backslash is an unterminated string, any other character an unexpected character, both located just
+     after the backslash *)
   Definition escape (c : cur) : outcome (bytes * cur) :=
     let c1 := adv c 1 in
     match fst c1 with
-    | [] => err_at E_InvalidSyntax (snd c1)
+    | [] => err_at E_UnterminatedString (snd c1)
     | _ =>
         let '(r, sz) := decode_rune (fst c1) in
         if (r =? 92) || (r =? 34) || (r =? 39) || (r =? 96) then Val (encode_rune r, adv c1 sz)
         else if r =? 110 then Val ([10], adv c1 sz)
         else if r =? 114 then Val ([13], adv c1 sz)
         else if r =? 116 then Val ([9], adv c1 sz)
-        else err_at E_InvalidSyntax (snd c1)
+        else err_at E_UnexpectedChar (snd c1)
     end.
 
   Definition string_type (original : N) : N :=
